@@ -831,6 +831,10 @@ def cancel_scenario(rng, size='quick', **over):
             ts += 1
             op = rng.choice([f'd {kk} {ts} - 1', f'd {kk} {ts} - 1', 'restore_active'])
             k = rng.choice([1, 2, 2, 3, 3, 4])
+        if op == 'close_active' and rng.random() < 0.7:
+            # a close that has something to close (and, with k >= 3, is dropped while it works on that blob)
+            lines += [data_op(), 'states']
+            k = rng.choice([1, 2, 3, 3, 4, 5, 7])
         lines += [f'cancel {k} {op}', 'states'] + reads()
         lines += [data_op(), 'states', 'alive']
         if rng.random() < 0.3:
